@@ -138,20 +138,37 @@ class Gen:
             self.emit(f"hook {a} {self.hook_outcome(fault)}")
 
     def finish(self):
-        """Drive the script towards termination so that join results are exercised."""
+        """Drive the script towards termination so that join results are exercised.  The ending
+        is itself randomised: stop / kill / dropping every reference arrive in any order, possibly
+        while a hook is still gated, and only then are the gates opened."""
         r = self.r
-        for a in range(self.nact):
-            self.emit(f"auto {a} 1")
+        gated_end = r.random() < 0.5
+        if not gated_end:
+            for a in range(self.nact):
+                self.emit(f"auto {a} 1")
+        enders = []
         for a in range(self.nact):
             x = r.random()
-            if x < 0.4 and a in self.strong:
-                self.emit(f"op {self.new_oid()} stop {a} -")
-            elif x < 0.6:
-                if a in self.strong:
-                    self.emit(f"kill {a}")
+            if x < 0.45 and a in self.strong:
+                enders.append(f"op {self.new_oid()} stop {a} -")
+            if r.random() < 0.35 and a in self.strong:
+                enders.append(f"kill {a}")
         if r.random() < 0.5:
-            for s in list(self.strong) + list(self.weak):
-                self.emit(f"drop {s}")
+            for sl in list(self.strong) + list(self.weak):
+                enders.append(f"drop {sl}")
+        r.shuffle(enders)
+        # dropping a slot before using it turns the later use into a recorded no-op: fine
+        for e in enders:
+            self.emit(e)
+            if gated_end and r.random() < 0.3:
+                a = r.randrange(max(1, self.nact))
+                self.emit(f"hook {a} {self.hook_outcome(self.family in ('fault', 'multi'))}")
+        if gated_end:
+            for a in range(self.nact):
+                if r.random() < 0.3:
+                    self.emit(f"hook {a} {self.hook_outcome(self.family in ('fault', 'multi'))}")
+            for a in range(self.nact):
+                self.emit(f"auto {a} 1")
         self.emit("advance 4")
 
 
